@@ -136,6 +136,16 @@ pub fn run() {
 			}
 		}
 	}
+	for (i, a) in universe(cx.quick()).into_iter().enumerate() {
+		if a.ends == 0 {
+			continue; // the property is about finished replays
+		}
+		let mut p = P { hash: i % 2 == 0, comp: (i % 3) as u8, class: "universe", ..Default::default() };
+		if i % 4 == 1 {
+			crate::inc::set_sched(&mut p, &crate::env::Sched::Chunk(5));
+		}
+		cases.push((a, p));
+	}
 	// every case also under fragmented reads of the skip path
 	let mut more = vec![];
 	for (a, p) in &cases {
